@@ -51,6 +51,8 @@ def to_model(v, t):
         return None if v is None else to_model(v, t[1])
     if corr.is_t(t, 'tuple'):
         return tuple(to_model(x, tt_) for x, tt_ in zip(v, t[1]))
+    if corr.is_t(t, 'list'):
+        return [to_model(x, t[1]) for x in v]
     raise TypeError('attribute type %r' % (t,))
 
 
